@@ -449,6 +449,26 @@ fn raw_directory(ctx: &mut Ctx, r: &mut StdRng) {
     if got != want {
         ctx.violation("C17:wrong-working-directory:non-utf8-directory", format!("hex dump of `pwd -P` is {got}, expected {want} ({})", src_dir.display()), cj.clone());
     }
+    // the recursion guard holds below such a directory as well: a command that invokes txtpp fails
+    let _ = std::fs::create_dir_all(src_dir.join("inner"));
+    let _ = std::fs::write(src_dir.join("inner/i.txt.txtpp"), b"inner\n");
+    let _ = std::fs::write(src_dir.join("outer.txt.txtpp"), format!("-TXTPP#run {} -q inner\n", cli_bin().display()));
+    let cfg2 = RunCfg { base: base.clone(), inputs: vec![".".into()], mode: Mode::Build, threads, recursive: true, trailing: true, shell: String::new() };
+    let ok2 = if via_cli {
+        let o = run_cli(&base, &cfg2.cli_args(), &CliOpts::default());
+        !o.timed_out && o.code == Some(0)
+    } else {
+        let o = run_inproc(&cfg2, Spec::Free { delay: None }, Some(&base), false);
+        let _ = std::env::set_current_dir("/");
+        o.verdict.is_ok()
+    };
+    ctx.evals += 1;
+    ctx.count("guard_runs", 1);
+    // (the recursive outer run builds inner/ itself; what matters is that the *command* fails, and
+    // with it the outer run)
+    if ok2 {
+        ctx.violation("C17:guard-recursion", "below a directory whose name is not valid UTF-8, a run command invoking txtpp succeeded: the binary started although TXTPP_FILE was set".to_string(), cj.clone());
+    }
     ctx.distinct.insert(crate::util::hash_str(&cj.to_string()));
     ctx.scratch.discard(&parent);
 }
